@@ -95,19 +95,29 @@ def get_generated(w: GW.Wsdl, files: dict):
     return ent
 
 
-class RecordingTransport:
-    """Stands where DefaultTransport would: records what the client posts, answers with canned bytes."""
+class RecordingSession:
+    """Stands where requests.Session would, under the real DefaultTransport: records what is posted and answers with canned bytes
+    and the HTTP status SOAP 1.1 over HTTP prescribes (200, or 500 for a fault)."""
 
-    def __init__(self, canned: bytes):
+    def __init__(self, canned: bytes, status: int):
         self.canned = canned
+        self.status = status
         self.calls = []
 
-    def get(self, url, params, headers):
+    def get(self, url, **kwargs):
         raise HarnessError("the SOAP client is not expected to GET")
 
-    def post(self, url, data, headers):
-        self.calls.append((url, data, dict(headers)))
-        return self.canned
+    def post(self, url, data=None, headers=None, timeout=None, **kwargs):
+        import requests
+        if kwargs:
+            raise HarnessError(f"unexpected arguments to Session.post: {sorted(kwargs)}")
+        self.calls.append((url, data, dict(headers or {})))
+        r = requests.Response()
+        r.status_code = self.status
+        r.url = url
+        r.reason = "OK" if self.status == 200 else "Internal Server Error"
+        r._content = self.canned
+        return r
 
 
 def _render_tree(ctx, obj):
@@ -275,8 +285,11 @@ def h_soap(ch: Chooser, vec: list, maxfeat: int, maxops: int):
     if c[0] == "exc":
         return bad("client-from-service-fails", repr(c[1]), op)
     client = c[1]
-    rec = RecordingTransport(canned)
-    client.transport = rec
+    from xsdata.formats.dataclass.transports import DefaultTransport
+    # a fault travels with HTTP 500 (SOAP 1.1 section 6.2); some servers answer 200: both are tried
+    status = 200 if resp_kind == "output" else ch.pick([500, 200], "http.status", free=True)
+    rec = RecordingSession(canned, status)
+    client.transport = DefaultTransport(session=rec)
     ref = call(XmlSerializer(context=XmlContext()).render, req_obj)
     if ref[0] == "exc":
         return bad("request-render-fails", f"{ref[1]!r}\n{req_obj!r}", op)
@@ -427,7 +440,7 @@ def run(tier: str, seed: int) -> int:
               "xs:import / wsdl:import of an xsd / wsdl:import of an abstract WSDL / two inline schemas, schema namespace = or != the WSDL's, elementFormDefault, soapAction per operation / empty / "
               "absent / URL with query, endpoint with query string, operation and message naming, default-namespace WSDL, an additional SOAP 1.2 binding + port of the same port type, one output message shared by all operations) x every operation x {service description, requests, responses, faults} "
               f"x every payload with <= {payload_bound} non-default answers (optional elements, value alphabets, encoding, user headers incl. colliding ones, dictionary input, fault fields / detail)."),
-        assumptions=["stand-ins for jinja2 / toposort / ruff / click (shims/, conformance-checked); `requests` is a names-only stand-in and DefaultTransport is not exercised: the client talks to a recording transport",
+        assumptions=["stand-ins for jinja2 / toposort / ruff / click (shims/, conformance-checked); `requests` is a names-only stand-in: the real DefaultTransport runs over a recording Session (HTTP 200, and 500 or 200 for faults)",
                      "expected envelopes are built from the WSDL AST with an explicit-prefix writer and read back by expat + libxml2, never by xsdata",
                      "rpc accessors are unqualified and the rpc response wrapper is operation name + 'Response' (WSDL 1.1 3.5, SOAP 1.1 7.1, WS-I BP R2729/R2735; upstream's hello fixture agrees)",
                      "an empty or absent soapAction may be announced as an empty SOAPAction header or not at all",
